@@ -640,6 +640,176 @@ def extras(ctx):
             for i in range(0, len(out), 20)]
 
 
+# ---- Map over SEVERAL dotted keys that share a parent table (siblings; siblings under a nested
+# parent; keys sharing only the outer parent), mixed with undotted keys and dotted keys with
+# parents of their own.  "each evaluated with that assignment overriding the caller's options":
+# ONE override dictionary carries ALL the assignments of the combination (Ref.ev, clause `map`:
+# every key is set into the same nested dictionary), so every mapped key read by the element
+# expression holds its assigned value - whatever the caller's dictionary has in that table.
+S3 = 28                                       # a third leaf of section K20
+D4, D5, P2, P3 = 26, 27, 31, 32               # K23.K24.K26, K23.K27; sections K31 / K32 of their own
+SIB_GROUPS = [
+    [K(SEC, SX), K(SEC, SY)],
+    [K(SEC, SY), K(SEC, SX)],
+    [K(SEC, SX), K(SEC, S3), K(SEC, SY)],
+    [K(*gen.DEEP), K(gen.DEEP[0], gen.DEEP[1], D4)],            # siblings under a nested parent
+    [K(gen.DEEP[0], D5), K(*gen.DEEP)],                         # share the outer parent only
+    [K(gen.DEEP[0], gen.DEEP[1], D4), K(gen.DEEP[0], D5), K(*gen.DEEP)],
+]
+SIB_OTHERS = [K(A), K(B), K(P2, SX), K(P3, gen.DEEP[1], gen.DEEP[2])]   # undotted / distinct parents, same leaf names
+SIB_VALUES = [1, 2, 3, 7, lit("a"), lit("b"), True, None]
+
+
+def sib_dicts(rng, keys):
+    """caller dictionaries for a Map over `keys`: empty; every mapped table present with OTHER values
+    (and leaves the Map does not assign); tables present in part; empty / scalar parents; random"""
+    def table(pick, value):
+        o = {}
+        for k in keys + SIB_OTHERS + [K(SEC, S3), K(gen.DEEP[0], D5)]:
+            if not pick(k):
+                continue
+            cur = o
+            for s in k[:-1]:
+                if not isinstance(cur.get(s[1]), dict):
+                    cur[s[1]] = {}
+                cur = cur[s[1]]
+            cur[k[-1][1]] = value(k)
+        return o
+    full = table(lambda k: True, lambda k: rng.choice([9, 8, lit("z"), False]))
+    part = table(lambda k: rng.random() < 0.5, lambda k: rng.choice([9, 0, lit("z")]))
+    hollow = {k[0][1]: rng.choice([{}, {}, 5]) for k in keys if len(k) > 1}
+    out = [{}, full, part, hollow, gen.rand_options(rng, 0.0)]
+    for o in out[1:]:
+        if rng.random() < 0.7:
+            o[LST] = rng.choice([[1, 2], [lit("a")], [], [2, 1, 7]])
+    return out
+
+
+def sib_read(rng, k):
+    return opt(k) if rng.random() < 0.65 else opt(k, val(rng.choice([0, lit("d")])))
+
+
+def sib_body(rng, keys, env):
+    """an element expression that reads EVERY mapped key (and sometimes a leaf the Map leaves alone)"""
+    reads = [sib_read(rng, k) for k in keys]
+    if rng.random() < 0.3:
+        reads.append(opt(rng.choice([K(SEC, S3), K(gen.DEEP[0], D5), K(C)]), val(lit("u"))))
+    rng.shuffle(reads)
+    shape = rng.randrange(8)
+    if shape == 0:
+        return ("call", F_TAG, reads)
+    if shape == 1:
+        return (rng.choice(["tuple", "list"]), reads)
+    if shape == 2:
+        return ("dict", [(("j", i + 1), r) for i, r in enumerate(reads)])
+    if shape == 3:      # dispatch on one sibling, the branches read the others
+        return ("switch", opt(keys[0]), [(("j", 1), ("call", F_TAG, reads)), (("j", lit("a")), ("tuple", reads[:-1]))],
+                ("list", reads) if rng.random() < 0.7 else None)
+    if shape == 4:
+        return ("case", opt(keys[-1], val(1)), [(("fnvalue", P_EQ1), ("tuple", reads))], ("call", F_TAG, reads))
+    if shape == 5:      # a dataset whose parameters are the mapped keys (plain / overloaded on a sibling / pre-set table)
+        dsid = len(env) + 1
+        d = dict(fid=F_DS1, kwargs=reads, cache="none")
+        r = rng.random()
+        if r < 0.3:
+            d.update(dispatch=opt(keys[0]), overloads=[(("j", 2), ("call", F_TAG, reads[:1])), (("j", lit("b")), val(0))])
+        elif r < 0.5:   # pre-set options win over the assignment, default options lose
+            pre, dfl = {}, {}
+            set_atoms(pre, rng.choice(keys), 6)
+            set_atoms(dfl, rng.choice(keys), 4)
+            d.update(options=pre, default_options=dfl)
+        env[dsid] = d
+        return ("dataset", dsid)
+    if shape == 6:
+        return ("coalesce", [reads[0], ("call", F_TAG, reads[1:])] if rng.random() < 0.5 else [("call", F_TAG, reads), val(0)])
+    return ("apply", ("tuple", reads), ("fnvalue", F_TAG))
+
+
+def set_atoms(d, key, v):
+    for s in key[:-1]:
+        d = d.setdefault(s[1], {})
+    d[key[-1][1]] = v
+
+
+def sib_iterable(rng, n):
+    r = rng.random()
+    if r < 0.7:
+        return val(rng.sample(SIB_VALUES, n))
+    if r < 0.85:
+        return opt(K(LST), val(rng.sample(SIB_VALUES, n)))
+    return ("list", [val(v) for v in rng.sample(SIB_VALUES, n)])
+
+
+def sib_map(rng, env):
+    keys = list(rng.choice(SIB_GROUPS))
+    for k in rng.sample(SIB_OTHERS, rng.choice([0, 0, 1, 2])):
+        keys.insert(rng.randint(0, len(keys)), k)
+    sizes = [rng.choice([1, 2, 2, 3]) if len(keys) <= 2 else rng.choice([1, 1, 2]) for _ in keys]
+    if rng.random() < 0.05:
+        sizes[rng.randrange(len(sizes))] = 0
+    its = [(k, sib_iterable(rng, n)) for k, n in zip(keys, sizes)]
+    r = rng.random()
+    if r < 0.15 and len(keys) >= 2:
+        # nested: the outer Map assigns some of the keys, the inner one their siblings (the inner
+        # assignment overrides the caller's options of the inner Map = the outer assignment applied)
+        cut = rng.randint(1, len(keys) - 1)
+        return keys, ("map", ("tolist", ("map", sib_body(rng, keys, env), its[cut:])), its[:cut])
+    body = sib_body(rng, keys, env)
+    if r < 0.3:         # defaults below the assignment (force=False) / pre-set above it (force=True)
+        p = {}
+        set_atoms(p, rng.choice(keys), 5)
+        body = ("with", rng.random() < 0.4, p, body)
+    return keys, ("map", body, its)
+
+
+def sibling_scn(ctx, values=False):
+    """values=True: the same family through Map.values (no value in the Coq model: oracle only)"""
+    rng = ctx.rng
+    env, exprs, allkeys = {}, [], []
+    for _ in range(4):
+        keys, m = sib_map(rng, env)
+        allkeys += [k for k in keys if k not in allkeys]
+        r = rng.random()
+        if values:
+            e = ("tolist", ("mapvalues", m)) if r < 0.6 else ("mapvalues", m)
+        elif r < 0.55:
+            e = ("tolist", m)
+        elif r < 0.8:
+            e = m
+        else:           # the whole Map under pre-set / default options holding the parent table
+            p = {}
+            set_atoms(p, rng.choice(keys), 5)
+            e = ("with", rng.random() < 0.5, p, ("tolist", m))
+        exprs.append(e)
+    dicts = sib_dicts(rng, allkeys)
+    return dict(ftable=E_FT, env=env, exprs=exprs,
+                ops=[("evaluate", j, False, False, o) for j in range(len(exprs)) for o in dicts])
+
+
+def sibling_shapes():
+    """fixed part of the family (no randomness): two / three sibling keys in both orders, the element
+    reading all of them, over every pair of leaf iterables x dictionaries with and without the table"""
+    en = Enum(rich=False)
+    its = en.trees("its", 1) + [val([5, lit("a")])]
+    x, y, z, u = K(SEC, SX), K(SEC, SY), K(SEC, S3), K(*gen.DEEP)
+    w = K(gen.DEEP[0], gen.DEEP[1], D4)
+    bodies = [("call", F_TAG, [opt(x), opt(y)]), ("tuple", [opt(y, val(0)), opt(x, val(0))])]
+    out = []
+    for b in bodies:
+        for i, j in itertools.product(its, its):
+            out.append(("tolist", ("map", b, [(x, i), (y, j)])))
+            out.append(("tolist", ("map", b, [(y, i), (x, j)])))
+    out.append(("map", ("call", F_TAG, [opt(z), opt(x), opt(y)]), [(x, val([1, 2])), (z, val([lit("a")])), (y, val([3, 4]))]))
+    out.append(("tolist", ("map", ("tuple", [opt(u), opt(w), opt(K(A))]), [(u, val([1, 2])), (K(A), val([0])), (w, opt(K(LST)))])))
+    out.append(("tolist", ("map", ("switch", opt(x), [(("j", 1), opt(y))], ("tuple", [opt(x), opt(y)])), [(x, val([1, 2])), (y, opt(K(LST)))])))
+    out.append(("tolist", ("map", ("dataset", 1), [(y, val([1, 2])), (x, val([3]))])))
+    env = {1: dict(fid=F_DS1, kwargs=[opt(x), opt(y), opt(z, val(0))], cache="none")}
+    dicts = [{}, {LST: [1, 2]}, {SEC: {SX: 9, SY: 8, S3: 7}, LST: [2, 1]}, {SEC: {SX: 9}, gen.DEEP[0]: {gen.DEEP[1]: {gen.DEEP[2]: 9}}, LST: [5]},
+             {SEC: {}, gen.DEEP[0]: {gen.DEEP[1]: {D4: 8, gen.DEEP[2]: 9}, D5: 6}, A: 4, LST: [lit("a"), 1]}]
+    return [dict(ftable=E_FT, env=env, exprs=out[i:i + 4], ops=[("evaluate", j, False, False, o) for j in range(len(out[i:i + 4])) for o in dicts])
+            for i in range(0, len(out), 4)]
+
+
 # ---- random deeper trees (the general generator, restricted to the property's combinators)
 def strip(e):
     """remove the nodes that are not this property's subject: caches (transparent: C01)"""
@@ -803,7 +973,11 @@ def run(ctx):
     lazy_scns = [lazy_scn(ctx) for _ in range(40 if q else 400)]
     extra_scns = extras(ctx)
     shape_scns = shapes()
-    groups = [("corpus", corpus), ("enumerated", enum_scns), ("shapes", shape_scns), ("random", rand_scns), ("lazy", lazy_scns)]
+    # drawn after every older stream, so that those stay what they were for a given seed
+    sib_scns = sibling_shapes() + [sibling_scn(ctx) for _ in range(60 if q else 600)]
+    extra_scns = extra_scns + [sibling_scn(ctx, values=True) for _ in range(12 if q else 120)]
+    groups = [("corpus", corpus), ("enumerated", enum_scns), ("shapes", shape_scns), ("random", rand_scns), ("lazy", lazy_scns),
+              ("map_sibling_keys", sib_scns)]
     modelled = [s for _, g in groups for s in g]
     import time
     t0 = time.time()
@@ -821,7 +995,7 @@ def run(ctx):
                 v = oracle_case(s, i, o, st, model_agrees=id(s) not in disagreeing)
                 e = s["exprs"][i]
                 if e[0] not in ("value", "option", "dataset"):
-                    distinct.add(lib.stable_hash([repr(e), repr(o), repr(s["env"]) if gname in ("random", "lazy") else ""]))
+                    distinct.add(lib.stable_hash([repr(e), repr(o), repr(s["env"]) if gname in ("random", "lazy", "map_sibling_keys") else ""]))
                     kinds[e[0]] = kinds.get(e[0], 0) + 1
                 if v is not None:
                     violations.append(dict(v, group=gname))
@@ -844,8 +1018,13 @@ def run(ctx):
                 "children, and six datasets (overloaded, re-registered implementation, pre-set/default options, callback, derived) "
                 "under Map / coalesce / switch / WithOptions x 7 dictionaries; "
                 "random: trees of depth 3..8 from the general generator restricted to the property's combinators x 5 adversarial "
-                "dictionaries; lazy: generators handed out by coalesce members (model comparison only); extras: set collection and "
-                "Map.values (oracle only)",
+                "dictionaries; lazy: generators handed out by coalesce members (model comparison only); map_sibling_keys: Map over "
+                "2-5 keys of which several are dotted keys sharing a parent table (siblings, siblings under a nested parent, keys sharing "
+                "only the outer parent; both orders; mixed with undotted keys and dotted keys with parents of their own), the element "
+                "expression (call / collections / switch / case / coalesce / dataset with parameters, overloads, pre-set tables / "
+                "WithOptions / a nested Map) reading every mapped key, x 5 caller dictionaries (empty, every table present with other "
+                "values, tables present in part, empty or scalar parents, random); extras: set collection and Map.values (oracle "
+                "only; the sibling-key family through Map.values too)",
         "samples": samples,
         "traces_validated_against_impl": cstats["ops"],
         "correspondence_mismatches": mism[:5],
